@@ -90,11 +90,13 @@ class Body:
         self.n = len(self.blocks)
         self.names = {}           # local -> debug name (whole-local debug entries)
         self.upvars = []          # (name, place) for projected debug entries (closure captures)
+        self.upvar_ty = {}        # json(place) -> type
         for e in d["dbg"]:
             if not e["p"]["p"]:
                 self.names.setdefault(e["p"]["l"], e["n"])
             else:
                 self.upvars.append((e["n"], e["p"]))
+                self.upvar_ty[json.dumps(e["p"], sort_keys=True)] = e.get("ty")
         self._succ = None
         self._pred = None
         self._dom = None
@@ -568,6 +570,23 @@ class Facts:
 
     def body(self, path):
         return self.bodies.get(path)
+
+    def field_ty(self, adt, field):
+        """declared type of `adt.field` for a crate-local ADT (adt may carry a ::Variant suffix)."""
+        a = self.adts.get(adt)
+        var = None
+        if a is None and "::" in adt:
+            base, var = adt.rsplit("::", 1)
+            a = self.adts.get(base)
+        if a is None:
+            return None
+        for v in a["variants"]:
+            if var is not None and v["name"] != var:
+                continue
+            for f in v["fields"]:
+                if f["n"] == field:
+                    return f["ty"]
+        return None
 
     def find(self, suffix):
         """bodies whose path ends with `suffix` at a `::` boundary."""
